@@ -1,0 +1,17 @@
+//go:build verif
+// +build verif
+
+package cluster
+
+import "github.com/tikv/pd/server/core"
+
+// VerifProcessRegionHeartbeat drives processRegionHeartbeat without a coordinator (verification hook).
+func (c *RaftCluster) VerifProcessRegionHeartbeat(region *core.RegionInfo) error {
+	return c.processRegionHeartbeat(region)
+}
+
+// VerifCheckStores runs one round of checkStores (verification hook).
+func (c *RaftCluster) VerifCheckStores() { c.checkStores() }
+
+// VerifBuryStore calls buryStore (verification hook).
+func (c *RaftCluster) VerifBuryStore(storeID uint64) error { return c.buryStore(storeID) }
